@@ -38,6 +38,22 @@ SEEDS = {
             "Gecko codes whose actual size is an exact multiple of 512: declared raw length 517 bytes too large"),
     "C19": ("C19", "MeleeString::try_from strips trailing NULs (rposition) instead of cutting at the first NUL",
             "a name field with non-NUL bytes after its first NUL"),
+    "C01b": ("C01", "frame_counts: for a port with a follower the pre/post event count ignores the leader's absent frames (2*len - absent(follower))",
+             "an Ice Climbers port whose leader is absent from some frame: declared raw length too large"),
+    "C03b": ("C03", "ItemMisc: third and fourth byte land in each other's column, in reader and writer alike",
+             "a 3.2+ replay with an item whose misc bytes 2 and 3 differ; round trips stay clean"),
+    "C04b": ("C04", "Frame Pre arm: the presence bit is pushed before the simulated frame close/open of pre-2.2 replays",
+             "a pre-2.2 replay in which the character whose Frame Pre comes first in a frame was absent from the previous frame"),
+    "C05b": ("C05", "game_start: per-port slices of the later layouts (UCF, name tag, netplay, UID) indexed by the player's rank among occupied ports instead of its port",
+             "a Game Start of layout 1.0+ with a port gap (an empty port below an occupied one)"),
+    "C06b": ("C06", "parse_event: after a final splitter chunk the wrapped code's declared size is looked up with unwrap()",
+             "a final Message Splitter chunk whose wrapped-event byte names a code the payload table does not declare"),
+    "C12b": ("C12", "parse_event: bytes_read is not advanced for non-final splitter chunks and advanced by all chunks at the final one",
+             "inspecting bytes_read() between the chunks of a split message"),
+    "C13b": ("C13", "mutable Frame::transpose_one: the newest frame's item slice is taken from (last offset, item.len())",
+             "the in-progress view of the newest frame after its Frame End, when that frame has items"),
+    "C17b": ("C17", "frame_counts: the follower's event count starts from the leader's present-frame count",
+             "an Ice Climbers port whose leader has absences: declared raw length too small"),
     "C20": ("C20", "Version::lt rewritten as `self.0 < major || self.1 < minor`",
             "a version whose major is above the threshold's major and whose minor is below the threshold's minor, e.g. 4.0 vs (3, 7)"),
 }
